@@ -133,7 +133,13 @@ class Ex(StmtMixin, ExprMixin, CallMixin, CompMixin):
         f = z3.ForAll(vars_, f)
     return f
 
+  def drain_facts(self):
+    while S._PENDING_FACTS:
+      f = S._PENDING_FACTS.pop(0)
+      self.pc.append(self._wrap(f))
+
   def assume(self, f):
+    self.drain_facts()
     f = self._wrap(f)
     if z3.is_quantifier(f) or z3.is_and(f) or z3.is_implies(f):
       # same normalisation as for goals: conjuncts, both directions of iff,
@@ -154,6 +160,7 @@ class Ex(StmtMixin, ExprMixin, CallMixin, CompMixin):
   def oblige(self, goal, kind, detail):
     if self.pure_mode:
       return
+    self.drain_facts()
     goal = self._wrap(goal)
     n = self.obl_count.get(kind, 0)
     self.obl_count[kind] = n + 1
@@ -176,6 +183,7 @@ class Ex(StmtMixin, ExprMixin, CallMixin, CompMixin):
     self.pc.append(goal)
 
   def feasible(self, cond):
+    self.drain_facts()
     r = quick_check(self.base_facts() + self.pc, self._wrap_exist(cond))
     return r != z3.unsat
 
@@ -354,11 +362,18 @@ class Ex(StmtMixin, ExprMixin, CallMixin, CompMixin):
     if isinstance(ps, tuple) and ps[0] == 'cls':
       return ClassRef(mod, ps[1])
     if isinstance(ps, tuple) and ps[0] == 'obj':
+      if len(ps) == 3:
+        mod = source.load(self.repo, ps[1])
+        ps = ('obj', ps[2])
       b = self.theory.classes.get((mod.relpath, ps[1]))
       if not b or b[0] != 'obj':
         raise Unsupported('obj class %s not bound' % ps[1])
       o = Obj(ps[1], mod, {})
       for f, fs in b[1].items():
+        if isinstance(fs, tuple) and fs[0] == 'obj':
+          # nested object: ('obj', relpath, clsname)
+          o.fields[f] = self.make_param('%s.%s' % (name, f), ('obj', fs[2]), source.load(self.repo, fs[1]))
+          continue
         o.fields[f] = V(fs, fs.fresh('%s.%s' % (name, f)))
         self.assume_wf(o.fields[f])
       return o
